@@ -19,6 +19,7 @@ class Item:
         self.assoc = assoc        # list of 1-based item positions or None
         self.attrs = attrs or []  # list of (attrname, op, exprtext, exprIR)
         self.constraint = constraint  # (text, exprIR) or None
+        self.attach = None        # (to item 1-based, at point name, with point name)
 
 
 class Rule:
@@ -119,6 +120,8 @@ class Prog:
                         d["assoc"] = it.assoc
                         d["attrs"] = [[a, op, ir_] for (a, op, _t, ir_) in it.attrs]
                         d["constraint"] = it.constraint[1] if it.constraint else None
+                        if it.attach:
+                            d["attach"] = {"to": it.attach[0], "at": it.attach[1], "with": it.attach[2]}
                         items.append(d)
                     rl.append({"items": items, "caret": r.caret, "opt": [list(o) for o in r.opt], "line": r.line,
                                "tree": r.tree, "ifs": r.ifs})
@@ -143,7 +146,8 @@ class Prog:
                 "gattr": self.gattr, "features": self.features, "languages": self.languages, "nameStart": self.name_start,
                 "classes": classes, "classDefs": defs, "classNames": names + ["ANY", "#"], "passes": passes,
                 "gattrValues": [[g, v] for g, v in sorted(getattr(self, "gattr_values", {}).items())],
-                "advances": getattr(self, "advances", [])}
+                "advances": getattr(self, "advances", []),
+                "points": [[nm, [[g, x, y] for g, (x, y) in sorted(v.items())]] for nm, v in sorted(getattr(self, "points", {}).items())]}
 
 
 def rule_text(r):
@@ -170,8 +174,11 @@ def rule_text(r):
                 o = "_"
             if it.assoc:
                 o += ":(%s)" % " ".join(str(a) for a in it.assoc) if len(it.assoc) > 1 else ":%d" % it.assoc[0]
-            if it.attrs:
-                o += " {" + "; ".join("%s %s %s" % (a, op, t) for (a, op, t, _i) in it.attrs) + "}"
+            if it.attrs or it.attach:
+                parts = ["%s %s %s" % (a, op, t) for (a, op, t, _i) in it.attrs]
+                if it.attach:
+                    parts.insert(0, "attach {to = @%d; at = %s; with = %s}" % it.attach)
+                o += " {" + "; ".join(parts) + "}"
             if r.opt_body:
                 o = pre + o + post
                 pre = post = ""
@@ -1190,6 +1197,90 @@ def gen_pos_program(rng):
                     op = "=" if nm == "kern.x" or rng.random() < 0.7 else rng.choice(["+=", "-="])
                     it.attrs.append((nm, op, t, ir_))
             rules.append(Rule(items))
+        passes.append(rules)
+    prog.tables.append(("pos", passes))
+    return prog
+
+
+# ---------------------------------------------------------------------------
+# family 'attach' (C01): positioning passes that attach marks to bases and to other marks
+# ---------------------------------------------------------------------------
+
+def gen_attach_program(rng):
+    prog = Prog()
+    prog.nglyphs = 20
+    prog.font, glyphs, prog.cmap = ttf.simple_font(prog.nglyphs)
+    prog.advances = [g.get("adv", 0) for g in glyphs]
+    pts = {"uM": {}, "lM": {}, "uS": {}, "lS": {}}
+    stm = []
+
+    def cls(name, gl, points):
+        prog.classes[name] = list(gl)
+        prog.class_defs[name] = glyph_list_text(gl) + " {" + "; ".join("%s = point(%dm, %dm)" % (pn, x, y) for pn, (x, y) in points.items()) + "}"
+        prog.class_order.append(name)
+        for pn, xy in points.items():
+            for g in gl:
+                pts[pn][g] = xy
+    rp = lambda lo, hi: rng.randint(lo, hi)
+    cls("cBaseA", [3, 4], {"uM": (rp(100, 300), rp(500, 700)), "lM": (rp(50, 250), rp(-120, -20))})
+    cls("cBaseB", [5, 6, 7], {"uM": (rp(100, 300), rp(500, 700)), "lM": (rp(50, 250), rp(-120, -20))})
+    cls("cMarkU", [8, 9, 10], {"uS": (rp(20, 200), rp(-20, 40)), "uM": (rp(20, 200), rp(200, 400))})
+    cls("cMarkL", [11, 12], {"lS": (rp(20, 200), rp(350, 550)), "lM": (rp(20, 200), rp(-90, -10))})
+    prog.classes["cBase"] = [3, 4, 5, 6, 7]
+    prog.class_defs["cBase"] = "(cBaseA, cBaseB)"
+    prog.class_order.append("cBase")
+    prog.classes["cOther"] = [13, 14, 15]
+    prog.class_defs["cOther"] = "glyphid(13..15)"
+    prog.class_order.append("cOther")
+    prog.points = pts
+    passes = []
+    for _p in range(rng.randint(1, 2)):
+        rules = []
+        for _r in range(rng.randint(1, 4)):
+            k = rng.random()
+            items = []
+            if k < 0.3:
+                items = [Item("cBase"), Item("cMarkU", mod=True)]
+                items[1].attach = (1, "uM", "uS")
+            elif k < 0.5:
+                items = [Item("cBase"), Item("cMarkU", mod=True), Item("cMarkU", mod=True)]
+                items[1].attach = (1, "uM", "uS")
+                items[2].attach = (2, "uM", "uS")
+            elif k < 0.65:
+                items = [Item("cBase"), Item("cMarkL", mod=True)]
+                items[1].attach = (1, "lM", "lS")
+            elif k < 0.8:
+                items = [Item("cBase"), Item("cMarkU", mod=True), Item("cMarkL", mod=True)]
+                items[1].attach = (1, "uM", "uS")
+                items[2].attach = (1, "lM", "lS")
+            elif k < 0.9:
+                items = [Item("cMarkU", mod=True), Item("cBase")]
+                items[0].attach = (2, "uM", "uS")
+            else:
+                items = [Item("cBase"), Item("cMarkL", mod=True), Item("cMarkL", mod=True)]
+                items[1].attach = (1, "lM", "lS")
+                items[2].attach = (2, "lM", "lS")
+            if rng.random() < 0.3:
+                items.insert(0, Item(rng.choice(["cOther", "cBase"])))
+                for it in items:
+                    if it.attach:
+                        it.attach = (it.attach[0] + 1,) + it.attach[1:]
+            for it in items:
+                if it.mod and rng.random() < 0.35:
+                    nm = rng.choice(["shift.x", "shift.y", "advance.x"])
+                    v = rng.choice([0, 0, 15, 40, -25, 100]) if nm == "advance.x" else rng.choice([10, 30, -20, -45])
+                    it.attrs.append((nm, "=", (str(v) if v >= 0 else "(%d)" % v), {"k": "lit", "v": v}))
+            if rng.random() < 0.25:
+                b = [it for it in items if it.cls in ("cBase",) and not it.mod]
+                if b and items.index(b[0]) >= (1 if len(items) > 2 and items[0].cls in ("cOther",) else 0):
+                    pass
+            rules.append(Rule(items))
+        # a rule that moves bases (independent of attachment)
+        if rng.random() < 0.4:
+            it = Item("cBase", mod=True)
+            v = rng.choice([12, -18, 33])
+            it.attrs.append(("shift.x", "=", (str(v) if v >= 0 else "(%d)" % v), {"k": "lit", "v": v}))
+            rules.append(Rule([it, Item("cOther")]))
         passes.append(rules)
     prog.tables.append(("pos", passes))
     return prog
